@@ -138,6 +138,22 @@ def directed(tier):
         plans.append({'seed': 940000 + n, 'scenario': 'directed-type-extremes', 'device': dev, 'ops': ops, 'nthreads': 1,
                       'knobs': {'line_mean': 0, 'p_stall': 0.0, 'needs_resending': False, 'lat': (0.001, 0.001),
                                 'rates': {}, 'notify_period': 0}})
+    # single queries issued while the updater is idle, on a zero-latency link, under priority (PCT) schedules: with the
+    # calling thread at the lowest priority the answer is dispatched before the caller has finished issuing the request
+    params = [['q', 'p%d' % i, 2, i + 1, False, True, True, 7, 100 + i if i % 2 else None] for i in range(3)]
+    dev = {'version': 10, 'legacy_source': False, 'log': [['l', 'v', 1]], 'param': params, 'mems': [],
+           'log_crc': None, 'param_crc': None, 'value_seed': 2}
+    for v in range(24 if tier == 'quick' else 200):
+        ops = []
+        for i in range(3):
+            for kind in ('default', 'pstate', 'read', 'pstore', 'default'):
+                ops.append({'t': 0, 'op': kind, 'name': 'q.p%d' % i, 'gap': 0.05})
+        n += 1
+        plans.append({'seed': 940000 + n, 'scenario': 'directed-idle-queries-pct', 'device': dev, 'ops': ops,
+                      'nthreads': 1,
+                      'knobs': {'line_mean': 1, 'p_stall': 0.0, 'needs_resending': False, 'lat': (0.0, 0.0),
+                                'rates': {}, 'notify_period': 0, 'pct': [1, 2, 3][v % 3], 'pct_horizon': 6000},
+                      'sched': {'alt': v}})
     return plans
 
 
